@@ -198,13 +198,14 @@ func (c *Conn) Close() error {
 	// and Server.Close closes this connection again.
 	session := c.session
 	c.session = nil
+	conn := c.conn
 	c.locker.Unlock()
 
 	if session != nil {
 		session.Logout()
 	}
 
-	return c.conn.Close()
+	return conn.Close()
 }
 
 // TLSConnectionState returns the connection's TLS connection state.
